@@ -316,7 +316,7 @@ func ruleWR2(c *Ctx) {
 			fn := c.Name(caller)
 			construct := fmt.Sprintf("b:replace-caller#%d", i+1)
 			pos := c.Pos(cs.Call.Pos())
-			if Outermost(caller).Name() == "RunCompact" && c.F.Callbacks[caller] != nil {
+			if c.inCompactSection(caller) {
 				c.ok(fn, construct, pos, "compact: the one history-rewriting command (frozen exception: the property names compact)")
 				continue
 			}
@@ -361,6 +361,24 @@ func ruleWR2(c *Ctx) {
 			}
 		}
 	}
+}
+
+// inCompactSection: fn is the critical section of the compact command (its lock callback) or a private helper only that
+// section uses.
+func (c *Ctx) inCompactSection(fn *ssa.Function) bool {
+	rc := c.ErgoFn("RunCompact")
+	if rc == nil {
+		return false
+	}
+	for _, ls := range c.F.LockSites {
+		if ls.Fn != rc || ls.Callback == nil {
+			continue
+		}
+		if fn == ls.Callback || c.inUnit(fn, ls.Callback) {
+			return true
+		}
+	}
+	return false
 }
 
 // prefixAppendShape recognises append(append(make(...), P1...), P2...) and returns the two parameters.
